@@ -113,8 +113,10 @@ def gen_type(rng, params, depth=2):
     leaves = [t_ident(n) for n in ["i32", "u8", "String", "bool"]] + [t_ident(p) for p in params] * 3
     if depth == 0 or rng.random() < 0.35:
         return rng.choice(leaves)
-    k = rng.randrange(11)
+    k = rng.randrange(12)
     sub = lambda: gen_type(rng, params, depth - 1)
+    if k == 11:
+        k = 8
     if k == 0:
         return t_elem(rng.choice(["ref", "ptr", "slice", "array", "paren"]), sub())
     if k == 1:
@@ -131,8 +133,11 @@ def gen_type(rng, params, depth=2):
         return t_dyn([[("Tr", ("angle", [sub()]))], None])
     if k == 7:
         return t_path([("Wrap", ("angle", [None, sub()]))])
-    if k == 8 and params:
-        return t_path([("Tr", ("angle", [sub()])), ("Assoc", None)], qself=t_ident(rng.choice(params)))
+    if k == 8:
+        # qualified path: the parameter may sit in the self type, or only in the trait's / last segment's arguments
+        qs = t_ident(rng.choice(params)) if params and rng.random() < 0.4 else rng.choice([t_ident("Holder"), sub()])
+        last = ("Assoc", None) if rng.random() < 0.6 else ("Of", ("angle", [sub()]))
+        return t_path([("Tr", ("angle", [sub()])), last], qself=qs)
     if k == 9:
         return t_dyn([[("Fn", ("paren", [sub()], sub()))]])
     return rng.choice(leaves)
